@@ -247,6 +247,7 @@ def CoreP (sources : List (Nat × Text)) (salsaSrc : List (Nat × Nat)) (inputs 
   -- two files never share an input
   (∀ f g h, lookup salsaSrc f = some h → lookup salsaSrc g = some h → f = g)
 
+omit [DecidableEq Text] in
 theorem coreP_edit {src : List (Nat × Text)} {sal : List (Nat × Nat)} {inp : List (Nat × Text)}
     {n f h : Nat} (t : Text) (c : CoreP src sal inp n) (hf : lookup sal f = some h) :
     CoreP (insert src f t) sal (insert inp h t) n := by
@@ -267,8 +268,9 @@ theorem coreP_edit {src : List (Nat × Text)} {sal : List (Nat × Nat)} {inp : L
     have hfg : ¬ f = g := fun e => by subst e; rw [hf] at hg; cases hg
     rw [lookup_insert]; simp [hfg, c4 g hg]
 
+omit [DecidableEq Text] in
 theorem coreP_add {src : List (Nat × Text)} {sal : List (Nat × Nat)} {inp : List (Nat × Text)}
-    {n f : Nat} (t : Text) (c : CoreP src sal inp n) (hf : lookup sal f = none) :
+    {n f : Nat} (t : Text) (c : CoreP src sal inp n) (_hf : lookup sal f = none) :
     CoreP (insert src f t) (insert sal f n) (insert inp n t) (n + 1) := by
   obtain ⟨c1, c2, c3, c4, c5⟩ := c
   refine ⟨nodup_insert _ _ _ c1, nodup_insert _ _ _ c2, ?_, ?_, ?_⟩
@@ -300,6 +302,7 @@ theorem coreP_add {src : List (Nat × Text)} {sal : List (Nat × Nat)} {inp : Li
     · simp [e1] at h1; simp [e2] at h2
       exact c5 g1 g2 h' h1 h2
 
+omit [DecidableEq Text] in
 theorem coreP_remove {src : List (Nat × Text)} {sal : List (Nat × Nat)} {inp : List (Nat × Text)}
     {n : Nat} (f : Nat) (c : CoreP src sal inp n) :
     CoreP (erase src f) (erase sal f) inp n := by
@@ -332,6 +335,7 @@ structure Inv (s : Db Text) : Prop where
   /-- the lazy re-sync is pending only on a database that never held a file -/
   lazy : s.synced ≠ s.rev → s.sources = [] ∧ s.project = none
 
+omit [DecidableEq Text] in
 theorem inv_new : Inv (Db.new : Db Text) :=
   { core := by simp [CoreP, Db.new, keys]
     proj := by simp [Db.new]
@@ -365,6 +369,7 @@ theorem inv_setSourceText {s : Db Text} (i : Inv s) (f : Nat) (t : Text) :
               projNone := by simp [syncProjectInputs]
               lazy := by simp [syncProjectInputs] }
 
+omit [DecidableEq Text] in
 theorem inv_removeSourceText {s : Db Text} (i : Inv s) (f : Nat) : Inv (removeSourceText s f) := by
   unfold removeSourceText
   split
@@ -414,8 +419,7 @@ theorem withSynced_idem (s : Db Text) : withSynced (withSynced s) = withSynced s
   unfold withSynced
   split
   · simp [prepareSalsaProject_rev]
-  · rename_i he
-    simp [he]
+  · simp
 
 theorem prepareSalsaProject_of_inv {s : Db Text} (i : Inv s) :
     prepareSalsaProject s = if s.project.isNone then syncProjectInputs s else s := by
@@ -480,7 +484,7 @@ theorem withSynced_fields {s : Db Text} (i : Inv s) :
     · rename_i hp
       cases hpr : s.project with
       | none => simp [hpr] at hp
-      | some p => simp [hpr, i.proj p hpr]
+      | some p => simp [i.proj p hpr]
   · rename_i he
     have he : s.synced = s.rev := Classical.not_not.1 he
     cases hpr : s.project with
@@ -497,6 +501,7 @@ theorem sourceHandleForFile_of_inv {s : Db Text} (i : Inv s) (f : Nat) :
     unfold sourceInputForFile
     simp [hs, i.core.2.2.2.1 f hs]
 
+omit [DecidableEq Text] in
 theorem resolve_map (s : Db Text) (l : List (Nat × Nat))
     (h : ∀ f hd, (f, hd) ∈ l → ∃ t, lookup s.inputs hd = some t) :
     ∃ v, resolve s l = some v ∧ v.map (·.1) = l.map (·.1) ∧
@@ -518,6 +523,7 @@ theorem resolve_map (s : Db Text) (l : List (Nat × Nat))
       · rw [ht] at h2; cases h2; exact Or.inl ⟨rfl, rfl⟩
       · exact Or.inr ⟨hd', h1, h2⟩
 
+omit [DecidableEq Text] in
 /-- The id-sorted list of salsa's sources, resolved, is *the* listing of the current texts. -/
 theorem resolve_listing {s : Db Text} (i : Inv s) :
     ∃ v, resolve s (sortById s.salsaSrc) = some v ∧ Spec.IsListing (lookup s.sources) v := by
@@ -547,15 +553,18 @@ theorem resolve_listing {s : Db Text} (i : Inv s) :
         rw [hsrc] at hu2; cases hu2
         exact ⟨hd, (mem_sortById _ _).2 (mem_of_lookup hs), hu1⟩
 
+omit [DecidableEq Text] in
 theorem listing_unique {m : Nat → Option Text} {v w : List (Nat × Text)}
     (hv : Spec.IsListing m v) (hw : Spec.IsListing m w) : v = w :=
   strict_sorted_ext (fun p => p.1) v w hv.1 hw.1
     (fun p => by obtain ⟨f, t⟩ := p; rw [hv.2, hw.2])
 
+omit [DecidableEq Text] in
 theorem listing_congr {m m' : Nat → Option Text} {v : List (Nat × Text)}
     (h : ∀ f, m f = m' f) (hv : Spec.IsListing m v) : Spec.IsListing m' v :=
   ⟨hv.1, fun f t => by rw [hv.2, h f]⟩
 
+omit [DecidableEq Text] in
 /-- The sorted `Database.sources` view is the listing of the current texts as well. -/
 theorem viewSources_listing {s : Db Text} (i : Inv s) :
     Spec.IsListing (lookup s.sources) (viewSources s) := by
@@ -625,6 +634,7 @@ theorem lookup_setSourceText (s : Db Text) (f : Nat) (t : Text) (g : Nat) :
     · split <;> simpa [syncProjectInputs, setInputText] using hins
     · simpa [syncProjectInputs, newInput] using hins
 
+omit [DecidableEq Text] in
 theorem lookup_removeSourceText (s : Db Text) (f g : Nat) :
     lookup (removeSourceText s f).sources g = if g = f then none else lookup s.sources g := by
   unfold removeSourceText
@@ -670,6 +680,7 @@ theorem rel_foldl {s : Db Text} {m : Nat → Option Text} (r : Rel s m) (h : Lis
 theorem rel_run (h : List (Op Text)) : Rel (run h) (Spec.final h) :=
   rel_foldl ⟨inv_new, fun _ => rfl⟩ h
 
+omit [DecidableEq Text] in
 theorem foldl_loadFresh (l : List (Nat × Text)) (hn : (keys l).Nodup) (m : Nat → Option Text)
     (f : Nat) :
     (loadFresh l).foldl Spec.step m f = match lookup l f with | some t => some t | none => m f := by
@@ -689,11 +700,225 @@ theorem foldl_loadFresh (l : List (Nat × Text)) (hn : (keys l).Nodup) (m : Nat 
     · have : ¬ f = g := fun e => hg e.symm
       simp [lookup, hg, Spec.step, this]
 
+omit [DecidableEq Text] in
 theorem final_loadFresh (l : List (Nat × Text)) (hn : (keys l).Nodup) (f : Nat) :
     Spec.final (loadFresh l) f = lookup l f := by
   unfold Spec.final
   rw [foldl_loadFresh l hn]
   cases lookup l f <;> rfl
+
+/-! ### One level up: `Project` -/
+
+/-- Invariant of the `Project` layer, relative to the final texts `m` (by key) and the number `n`
+of operations performed so far. -/
+structure PInv (p : Proj Text) (m : Nat → Option Text) (n : Nat) : Prop where
+  db : Inv p.db
+  nodup : (keys p.ids).Nodup
+  /-- two keys never share a file id -/
+  inj : ∀ k₁ k₂ id, lookup p.ids k₁ = some id → lookup p.ids k₂ = some id → k₁ = k₂
+  /-- every id handed out is below `next_id` -/
+  bound : ∀ k id, lookup p.ids k = some id → id < p.nextId
+  next : p.nextId ≤ n
+  /-- the database holds no file that belongs to no key -/
+  orphan : ∀ id, (lookup p.db.sources id).isSome = true → ∃ k, lookup p.ids k = some id
+  /-- the text of every key is its final text -/
+  spec : ∀ k, (lookup p.ids k).bind (lookup p.db.sources) = m k
+  /-- every registered key has a text -/
+  live : ∀ k id, lookup p.ids k = some id → (lookup p.db.sources id).isSome = true
+
+omit [DecidableEq Text] in
+theorem pinv_new : PInv (Proj.new : Proj Text) (fun _ => none) 0 :=
+  { db := inv_new
+    nodup := by simp [Proj.new, keys]
+    inj := by simp [Proj.new]
+    bound := by simp [Proj.new]
+    next := by simp [Proj.new]
+    orphan := by simp [Proj.new, Db.new]
+    spec := by simp [Proj.new]
+    live := by simp [Proj.new] }
+
+theorem pinv_set {p : Proj Text} {m : Nat → Option Text} {n : Nat} (i : PInv p m n)
+    (hn : n < u32Max) (key : Nat) (t : Text) :
+    PInv (projSet p key t) (Spec.step m (.set key t)) (n + 1) := by
+  unfold projSet ensureFileId
+  cases hk : lookup p.ids key with
+  | some id =>
+    simp only
+    refine { db := inv_setSourceText i.db id t, nodup := i.nodup, inj := i.inj, bound := i.bound,
+             next := Nat.le_succ_of_le i.next, orphan := ?_, spec := ?_, live := ?_ }
+    · intro x hx
+      simp only [lookup_setSourceText] at hx
+      by_cases hxi : x = id
+      · exact ⟨key, hxi ▸ hk⟩
+      · simp [hxi] at hx; exact i.orphan x hx
+    · intro k
+      simp only [Spec.step]
+      by_cases hkk : k = key
+      · subst hkk; simp [hk, lookup_setSourceText]
+      · simp only [hkk, if_false]
+        rw [← i.spec k]
+        cases hk' : lookup p.ids k with
+        | none => rfl
+        | some id' =>
+          have : ¬ id' = id := fun e => hkk (i.inj k key id (e ▸ hk') hk)
+          simp [lookup_setSourceText, this]
+    · intro k id' hk'
+      simp only [lookup_setSourceText]
+      by_cases e : id' = id
+      · simp [e]
+      · simp [e]; exact i.live k id' hk'
+  | none =>
+    simp only
+    have hnext : min (p.nextId + 1) u32Max = p.nextId + 1 := by
+      have := i.next
+      omega
+    have hfreshId : lookup p.db.sources p.nextId = none := by
+      cases h : lookup p.db.sources p.nextId with
+      | none => rfl
+      | some u =>
+        obtain ⟨k, hk'⟩ := i.orphan p.nextId (by simp [h])
+        have := i.bound k _ hk'
+        omega
+    refine { db := inv_setSourceText i.db _ t, nodup := nodup_insert _ _ _ i.nodup, inj := ?_,
+             bound := ?_, next := ?_, orphan := ?_, spec := ?_, live := ?_ }
+    · intro k₁ k₂ x h1 h2
+      simp only [lookup_insert] at h1 h2
+      by_cases e1 : key = k₁ <;> by_cases e2 : key = k₂
+      · exact e1.symm.trans e2
+      · simp [e1] at h1; simp [e2] at h2
+        have := i.bound k₂ x h2; omega
+      · simp [e1] at h1; simp [e2] at h2
+        have := i.bound k₁ x h1; omega
+      · simp [e1] at h1; simp [e2] at h2
+        exact i.inj k₁ k₂ x h1 h2
+    · intro k x hx
+      simp only [lookup_insert] at hx
+      simp only [hnext]
+      by_cases e : key = k
+      · simp [e] at hx; omega
+      · simp [e] at hx
+        have := i.bound k x hx; omega
+    · simp only [hnext]; have := i.next; omega
+    · intro x hx
+      simp only [lookup_setSourceText] at hx
+      by_cases hxi : x = p.nextId
+      · exact ⟨key, by simp [lookup_insert, hxi]⟩
+      · simp [hxi] at hx
+        obtain ⟨k, hk'⟩ := i.orphan x hx
+        have : ¬ key = k := fun e => by subst e; rw [hk] at hk'; cases hk'
+        exact ⟨k, by simp [lookup_insert, this, hk']⟩
+    · intro k
+      simp only [Spec.step, lookup_insert]
+      by_cases hkk : k = key
+      · subst hkk; simp [lookup_setSourceText]
+      · have hkk' : ¬ key = k := fun e => hkk e.symm
+        simp only [hkk, hkk', if_false]
+        rw [← i.spec k]
+        cases hk' : lookup p.ids k with
+        | none => rfl
+        | some id' =>
+          have := i.bound k id' hk'
+          have : ¬ id' = p.nextId := by omega
+          simp [lookup_setSourceText, this]
+    · intro k x hx
+      simp only [lookup_insert] at hx
+      simp only [lookup_setSourceText]
+      by_cases e : key = k
+      · simp [e] at hx; simp [hx]
+      · simp [e] at hx
+        by_cases e' : x = p.nextId
+        · simp [e']
+        · simp [e']; exact i.live k x hx
+
+omit [DecidableEq Text] in
+theorem pinv_remove {p : Proj Text} {m : Nat → Option Text} {n : Nat} (i : PInv p m n)
+    (key : Nat) : PInv (projRemove p key) (Spec.step m (.remove key)) (n + 1) := by
+  unfold projRemove
+  cases hk : lookup p.ids key with
+  | none =>
+    simp only
+    refine { db := i.db, nodup := i.nodup, inj := i.inj, bound := i.bound,
+             next := Nat.le_succ_of_le i.next, orphan := i.orphan, spec := ?_, live := i.live }
+    intro k
+    simp only [Spec.step]
+    by_cases hkk : k = key
+    · subst hkk; simp [hk]
+    · simp only [hkk, if_false]; exact i.spec k
+  | some id =>
+    simp only
+    refine { db := inv_removeSourceText i.db id, nodup := nodup_erase _ _ i.nodup, inj := ?_,
+             bound := ?_, next := Nat.le_succ_of_le i.next, orphan := ?_, spec := ?_, live := ?_ }
+    · intro k₁ k₂ x h1 h2
+      simp only [lookup_erase] at h1 h2
+      by_cases e1 : key = k₁ <;> by_cases e2 : key = k₂ <;> simp [e1, e2] at h1 h2
+      exact i.inj k₁ k₂ x h1 h2
+    · intro k x hx
+      simp only [lookup_erase] at hx
+      by_cases e : key = k <;> simp [e] at hx
+      exact i.bound k x hx
+    · intro x hx
+      simp only [lookup_removeSourceText] at hx
+      by_cases hxi : x = id
+      · simp [hxi] at hx
+      · simp [hxi] at hx
+        obtain ⟨k, hk'⟩ := i.orphan x hx
+        have : ¬ key = k := fun e => by subst e; rw [hk] at hk'; cases hk'; exact hxi rfl
+        exact ⟨k, by simp [lookup_erase, this, hk']⟩
+    · intro k
+      simp only [Spec.step, lookup_erase]
+      by_cases hkk : k = key
+      · subst hkk; simp
+      · have hkk' : ¬ key = k := fun e => hkk e.symm
+        simp only [hkk, hkk', if_false]
+        rw [← i.spec k]
+        cases hk' : lookup p.ids k with
+        | none => rfl
+        | some id' =>
+          have : ¬ id' = id := fun e => hkk (i.inj k key id (e ▸ hk') hk)
+          simp [lookup_removeSourceText, this]
+    · intro k x hx
+      simp only [lookup_erase] at hx
+      by_cases e : key = k <;> simp [e] at hx
+      have : ¬ x = id := fun e' => e (i.inj key k id hk (e' ▸ hx))
+      simp [lookup_removeSourceText, this]
+      exact i.live k x hx
+
+theorem pinv_query {p : Proj Text} {m : Nat → Option Text} {n : Nat} (i : PInv p m n)
+    (k : QKind) (key : Nat) : PInv (projQuery p k key).1 (Spec.step m (.query k key)) (n + 1) := by
+  unfold projQuery
+  cases hk : lookup p.ids key with
+  | none =>
+    exact { db := i.db, nodup := i.nodup, inj := i.inj, bound := i.bound,
+            next := Nat.le_succ_of_le i.next, orphan := i.orphan, spec := i.spec, live := i.live }
+  | some id =>
+    obtain ⟨_, iq, hs⟩ := query_of_inv i.db (fun g => rfl) (viewSources_listing i.db) k id
+    exact { db := iq, nodup := i.nodup, inj := i.inj, bound := i.bound,
+            next := Nat.le_succ_of_le i.next
+            orphan := by simpa [hs] using i.orphan
+            spec := by simpa [hs, Spec.step] using i.spec
+            live := by simpa [hs] using i.live }
+
+theorem pinv_step {p : Proj Text} {m : Nat → Option Text} {n : Nat} (i : PInv p m n)
+    (hn : n < u32Max) (op : Op Text) : PInv (projStep p op) (Spec.step m op) (n + 1) := by
+  cases op with
+  | set key t => exact pinv_set i hn key t
+  | remove key => exact pinv_remove i key
+  | query k key => exact pinv_query i k key
+
+theorem pinv_foldl {p : Proj Text} {m : Nat → Option Text} {n : Nat} (i : PInv p m n)
+    (h : List (Op Text)) (hn : n + h.length ≤ u32Max) :
+    PInv (h.foldl projStep p) (h.foldl Spec.step m) (n + h.length) := by
+  induction h generalizing p m n with
+  | nil => exact i
+  | cons op rest ih =>
+    simp only [List.length_cons] at hn ⊢
+    have := ih (pinv_step i (by omega) op) (by omega)
+    simpa [Nat.add_assoc, Nat.add_comm 1] using this
+
+theorem pinv_run (h : List (Op Text)) (hn : h.length ≤ u32Max) :
+    PInv (projRun h) (Spec.final h) h.length := by
+  have := pinv_foldl (pinv_new (Text := Text)) h (by omega)
+  simpa [projRun, Spec.final] using this
 
 end inv
 
